@@ -1,4 +1,4 @@
-"""E5 - path-base typing for the merge / premerge functions (C04.R1, C05.R1, C16.R3).
+"""E5 - path-base typing for the merge / premerge functions (C04.R1, C05.R1, C16.R3), over tracer paths.
 
 In a merge function `self` and `other` are the two nodes located at the absolute path given by the path
 parameter; `into` (premerge) is the root of the accumulated tree.  A path-valued expression has one of
@@ -11,108 +11,115 @@ the abstract types
     UNKNOWN
 Rule: a lookup X.ayns.get_node / get_first_not_missing_node / remove_node(p) needs p : REL when X is a peer
 (self / other) and p : ABS/EXT/USER when X is the merge root.
+
+The expressions typed are the *canonical values* of the tracer (E8): locals and closure variables are substituted,
+helpers are inlined, so `n = len(path); rel = p[n:]; other.get_node(rel)` types exactly like the one-line form.
 """
 import ast
 
-from .srcmodel import unparse, norm, walk_no_nested, calls_in
+from .srcmodel import unparse, norm
+from .tracer import Tracer, callback_params
 
 LOOKUPS = {'get_node', 'get_first_not_missing_node', 'remove_node'}
 HIGHER = {'filter_nodes', 'map_nodes'}
+NI = frozenset({'_replace_self', '_replace_other', '_require_all_new', 'filter_nodes', 'map_nodes', 'get_child', 'set_child', 'remove_child', 'on_merge',
+                'has_priority_over', 'on_merge_impl', 'on_premerge_impl', 'get_first_not_missing_node', 'get_str_path', 'get_node', 'remove_node', 'clear',
+                'named_children', 'children_names', 'has_child', '_propagate_priority', '_maybe_promote', 'premerge', 'on_premerge'})
 
 
 class Lookup:
-    def __init__(self, fi, call, receiver, role, base, need, ok):
-        self.fi, self.call, self.receiver, self.role, self.base, self.need, self.ok = fi, call, receiver, role, base, need, ok
+    def __init__(self, fi, ev, receiver, role, base, need, ok):
+        self.fi, self.ev, self.receiver, self.role, self.base, self.need, self.ok = fi, ev, receiver, role, base, need, ok
+        self.call = ev.node
 
     def text(self):
-        return '%s.%s(%s)' % (self.receiver, self.call.func.attr, unparse(self.call.args[0]) if self.call.args else '')
+        return '%s.%s(%s)' % (self.receiver, self.ev.attr, self.ev.args[0].text[:80] if self.ev.args else '')
 
 
-def _recv(call):
-    r = call.func.value
-    if isinstance(r, ast.Attribute) and r.attr == 'ayns':
-        r = r.value
-    return r
+def base(e, env, user_path_self=False):
+    if isinstance(e, ast.Starred):
+        b = base(e.value, env, user_path_self)
+        if b in ('ABS', 'REL', 'USER') or b.startswith('EXT('):
+            # get_node(*p) hands the components to NodePath.get_list_path(*p), which re-parses a single str component as a
+            # dotted path string: the lookup depends on the depth of the node and on the spelling of its key
+            return 'BAD(%s list path unpacked into varargs: a single-component path is re-parsed as a path string)' % b
+        return b
+    if isinstance(e, ast.Name):
+        if e.id == 'self' and user_path_self:
+            return 'USER'
+        return env.get(e.id, 'UNKNOWN')
+    if isinstance(e, ast.BinOp) and isinstance(e.op, ast.Add):
+        return base(e.left, env, user_path_self)
+    if isinstance(e, ast.BoolOp) and isinstance(e.op, ast.Or) and len(e.values) == 2 and base(e.values[1], env, user_path_self) == 'REL':
+        return base(e.values[0], env, user_path_self)      # `p or NodePath()`: p, or the empty path when p is empty / None
+    if isinstance(e, ast.Subscript) and isinstance(e.slice, ast.Slice) and e.slice.lower is not None and e.slice.upper is None and e.slice.step is None:
+        b = base(e.value, env, user_path_self)
+        lo = e.slice.lower
+        cut = None
+        if isinstance(lo, ast.Call) and unparse(lo.func) == 'len' and lo.args:
+            cut = norm(lo.args[0])
+        if cut is not None and b == 'EXT(%s)' % cut:
+            return 'REL'
+        if cut is not None and b == 'ABS' and norm(e.value) == cut:
+            return 'REL'      # an absolute path cut by its own length: the empty relative path
+        if cut is not None and (b in ('REL', 'ABS', 'USER') or b.startswith('EXT(')):
+            return 'BAD(%s path cut by len(%s))' % (b, cut)
+        return 'UNKNOWN'
+    if isinstance(e, ast.Call) and unparse(e.func).endswith('NodePath') and not e.args:
+        return 'REL'
+    if isinstance(e, ast.Call) and unparse(e.func).endswith(('NodePath', 'get_list_path', 'list', 'tuple')) and len(e.args) >= 1:
+        return base(e.args[0], env, user_path_self)
+    if isinstance(e, (ast.List, ast.Tuple)) and not e.elts:
+        return 'REL'
+    if isinstance(e, (ast.List, ast.Tuple)) and len(e.elts) == 1 and isinstance(e.elts[0], ast.Starred):
+        return base(e.elts[0].value, env, user_path_self)
+    return 'UNKNOWN'
 
 
-def analyse(fi, path_param=None, user_path_self=False):
-    """type every lookup in fi (and in the callbacks it passes to filter_nodes / map_nodes)"""
+def analyse(repo, fi, path_param=None, user_path_self=False):
+    """type every lookup in fi (and in the callbacks it passes to filter_nodes / map_nodes); one Lookup per call site and type"""
     params = fi.params()
     if path_param is None:
         path_param = params[1] if len(params) > 1 else None
-    env = {path_param: 'ABS'} if path_param else {}
+    env0 = {path_param: 'ABS'} if path_param else {}
     roles = {'self': 'PEER', 'other': 'PEER', 'into': 'ROOT'}
-    lens = {}
-    for st in walk_no_nested(fi.node):
-        if isinstance(st, ast.Assign) and len(st.targets) == 1 and isinstance(st.targets[0], ast.Name) and \
-                isinstance(st.value, ast.Call) and unparse(st.value.func) == 'len' and st.value.args:
-            lens[st.targets[0].id] = norm(st.value.args[0])
-    nested = fi.nested()
-    out = []
+    out = {}
+    tracer = Tracer(repo, no_inline=NI, follow_exceptions=False)
 
-    def base(e, env):
-        if isinstance(e, ast.Name):
-            if e.id == 'self' and user_path_self:
-                return 'USER'
-            return env.get(e.id, 'UNKNOWN')
-        if isinstance(e, ast.BinOp) and isinstance(e.op, ast.Add):
-            return base(e.left, env)
-        if isinstance(e, ast.Subscript) and isinstance(e.slice, ast.Slice) and e.slice.lower is not None and e.slice.upper is None and e.slice.step is None:
-            b = base(e.value, env)
-            lo = e.slice.lower
-            cut = None
-            if isinstance(lo, ast.Call) and unparse(lo.func) == 'len' and lo.args:
-                cut = norm(lo.args[0])
-            if isinstance(lo, ast.Name) and lo.id in lens:
-                cut = lens[lo.id]
-            if cut is not None and b == 'EXT(%s)' % cut:
-                return 'REL'
-            if cut is not None and b == 'ABS' and isinstance(e.value, ast.Name) and e.value.id == cut:
-                return 'REL'      # an absolute path cut by its own length: the empty relative path
-            if cut is not None and b in ('REL', 'ABS', 'USER') or (cut is not None and b.startswith('EXT(')):
-                return 'BAD(%s path cut by len(%s))' % (b, cut)
-            return 'UNKNOWN'
-        if isinstance(e, ast.Call) and unparse(e.func).endswith('NodePath') and not e.args:
-            return 'REL'
-        if isinstance(e, (ast.List, ast.Tuple)) and not e.elts:
-            return 'REL'
-        return 'UNKNOWN'
-
-    def check(call, env, holder):
-        r = unparse(_recv(call))
+    def check(ev, env, holder):
+        r = ev.recv.text if ev.recv is not None else ''
+        if r.endswith('.ayns'):
+            r = r[:-5]
         role = roles.get(r)
-        if role is None or not call.args:
+        if role is None or not ev.args:
             return
-        b = base(call.args[0], env)
+        b = base(ev.args[0].ast, env, user_path_self)
         need = 'REL' if role == 'PEER' else 'ABS'
         ok = (b == need) or (need == 'ABS' and (b.startswith('EXT(') or b == 'USER'))
-        out.append(Lookup(holder, call, r, role, b, need, ok))
+        out.setdefault((id(ev.node), b), Lookup(holder, ev, r, role, b, need, ok))
 
-    def scan(node, env, holder, skip_nested=True):
-        it = walk_no_nested(node) if skip_nested and hasattr(node, 'body') and isinstance(node, (ast.FunctionDef,)) else ast.walk(node)
-        for c in it:
-            if not isinstance(c, ast.Call) or not isinstance(c.func, ast.Attribute):
-                continue
-            if c.func.attr in LOOKUPS:
-                check(c, env, holder)
-            if c.func.attr in HIGHER and c.args:
-                cb = c.args[0]
-                kw = {k.arg: k.value for k in c.keywords}
-                if 'prefix' in kw:
-                    pb = base(kw['prefix'], env)
-                    cb_base = 'EXT(%s)' % norm(kw['prefix']) if (pb == 'ABS' or pb.startswith('EXT(')) else ('REL' if pb == 'REL' else 'UNKNOWN')
-                else:
-                    cb_base = 'REL'
-                if isinstance(cb, ast.Name) and cb.id in nested:
-                    f2 = nested[cb.id]
-                    env2 = dict(env)
-                    env2[f2.params()[0]] = cb_base
-                    scan(f2.node, env2, f2)
-                elif isinstance(cb, ast.Lambda):
-                    env2 = dict(env)
-                    if cb.args.args:
-                        env2[cb.args.args[0].arg] = cb_base
-                    scan(cb.body, env2, holder, skip_nested=False)
+    def scan(paths, env, holder, depth=0):
+        for p in paths:
+            for ev in p.events:
+                if ev.kind != 'call':
+                    continue
+                if ev.attr in LOOKUPS:
+                    check(ev, env, holder)
+                if ev.attr in HIGHER and (ev.args or 'condition' in ev.kw) and depth < 3:
+                    cb = ev.args[0] if ev.args else ev.kw['condition']
+                    if 'prefix' in ev.kw:
+                        pb = base(ev.kw['prefix'].ast, env, user_path_self)
+                        cb_base = 'EXT(%s)' % ev.kw['prefix'].text if (pb == 'ABS' or pb.startswith('EXT(')) else ('REL' if pb == 'REL' else 'UNKNOWN')
+                    else:
+                        cb_base = 'REL'
+                    if cb.closure is not None:
+                        t, cps = tracer.trace_closure(cb)
+                        env2 = dict(env)
+                        ps = callback_params(t)
+                        if ps:
+                            env2[ps[0]] = cb_base
+                        scan(cps, env2, t, depth + 1)
 
-    scan(fi.node, env, fi)
-    return out
+    from .rules import tr
+    scan(tr.paths_of(repo, fi, no_inline=NI, follow_exceptions=False), env0, fi)
+    return list(out.values())
